@@ -477,7 +477,7 @@ SPEC = {
             'max_id equal to / above (reserved ids, deleted objects) / below the highest number in use; documents already '
             'consecutive from the start value (dense pass has nothing to move) with a stale max_id; '
             '8% damaged page trees; 22 fixed boundary cases; non-trivial = at least 3 objects; distinct = distinct case text',
-    'extra_trusted': ['C10: traverse_objects is modelled for reference-rewriting actions only (both actions used by renumbering)',
+    'extra_trusted': ['C10: traverse_objects is modelled for actions that rename a reference or overwrite it with Null (both actions used by renumbering)',
                       'C10: HashMap<u32, Bookmark> modelled as an association list printed in key order'],
 }
 
@@ -520,28 +520,37 @@ def run(ctx):
 
 MANIFEST = {
     'level_text': 'Machine-checked proof (Coq) about a branch-for-branch model of renumber_objects_with / renumber_objects '
-                  '(page-order pass, dense pass, renumber_bookmarks_with) and traverse_objects: for every document with '
-                  'sorted keys, every start value with start + n <= 2^32, outside the known-finding class, the call returns '
-                  'and there is a renaming rho, one-to-one on the ids the document uses and onto those of the result, with '
-                  'trailer, every reachable object and every bookmark target equal to the originals with references renamed, '
-                  'same reachable set up to rho, every reference resolving to the same content, dangling references and '
-                  'bookmark targets staying dangling, page_iter of the result = map rho of page_iter before '
-                  '(C10_renumber_iso); numbers are start..start+n-1 with generations kept and max_id the last one '
-                  '(C10_renumber_dense); start + n > 2^32 panics (C10_fits_necessary); traverse_objects terminates within '
-                  'its fuel and rewrites each reachable reference exactly once (C10_traverse_once). The property is REFUTED '
-                  'inside the class "a reachable reference or bookmark target names no object and its number lies in '
-                  '[start, start+n)" (C10_KnownClass_witness, open finding dangling-in-range, re-confirmed on the crate on '
-                  'every run) and was refuted on the pinned code in four more ways, now repaired by fix: commits '
-                  '(C10_*_v0_refuted over the kept model RenumberV0). Tied to the implementation by differential runs on '
-                  'random reference graphs x start values, comparing objects, trailer, max_id, bookmark table and page_iter.',
-    'level_note': 'Trusted: Coq kernel; hand-written models of renumber_objects_with, traverse_objects (for reference-rewriting '
-                  'actions only), add_bookmark, PageTreeIter (shared with C12) and Document::dereference, tied by '
-                  'correspondence; association lists for BTreeMap (sorted_keys is the representation invariant, a hypothesis) '
-                  'and HashMap<u32, Bookmark>; the page counter i32 is not modelled (2^31 pages); the Python classifier of the '
-                  'known class mirrors the Coq predicate KnownClass (C10_KnownClass_spec); extraction/OCaml driver; Rust '
-                  'harness whose verdict discovers the renaming by walking both documents in lock step. No axioms '
+                  '(page-order pass, dense pass with its null-writing action and no-page bookmarks, renumber_bookmarks_with, '
+                  'the i32 page counter) and traverse_objects: for EVERY document with sorted keys and every start value '
+                  'with start + n <= 2^32 -- no hypothesis on dangling references any more -- the call returns and there is '
+                  'a renaming rho, one-to-one on the ids that name objects and onto those of the result, with trailer and '
+                  'every reachable object equal to the originals with references renamed, where a reference that names no '
+                  'object is written as what it denotes (ISO 32000-1 7.3.10), the null object; bookmark targets renamed, a '
+                  'target that names no object becomes the no-page id (number 0, names no object afterwards); same reachable '
+                  'set up to rho, no reachable reference dangling afterwards, every reference denoting the same content as '
+                  'before, page_iter of the result = map rho of page_iter before (C10_renumber_iso); numbers are '
+                  'start..start+n-1 with generations kept and max_id the last one (C10_renumber_dense); start + n > 2^32 '
+                  'panics (C10_fits_necessary); the i32 page counter is exact below 2^31 objects and panics above i32::MAX '
+                  'distinct pages (C10_page_counter); traverse_objects terminates within its fuel and rewrites each reachable '
+                  'reference exactly once, for renaming actions and for the null-writing action (C10_traverse_once, _o). '
+                  'Extensions: renumbering a writable document gives one in the domain of the save/load round trip and '
+                  'renumber;save;load returns the renumbered document (C10_renumber_savable, C10_renumber_save_load, with '
+                  'C01_full); the README merge (second document renumbered from max_id + 1): disjoint consecutive number '
+                  'ranges, union keeps both graphs (C10_merge_disjoint). The property was REFUTED on the code before the '
+                  'repair e5c19fd (C10_dangling_v1_refuted, C10_dangling_bookmark_v1_refuted over the kept model RenumberV1) '
+                  'and on the pinned code in four more ways (C10_*_v0_refuted over RenumberV0); all five are fixed in /repo. '
+                  'Tied to the implementation by differential runs on random reference graphs x start values, comparing '
+                  'objects, trailer, max_id, bookmark table and page_iter.',
+    'level_note': 'Trusted: Coq kernel; hand-written models of renumber_objects_with, traverse_objects (for actions that rename a '
+                  'reference or overwrite it with Null), add_bookmark, PageTreeIter (shared with C12) and '
+                  'Document::dereference, tied by correspondence; association lists for BTreeMap (sorted_keys is the '
+                  'representation invariant, a hypothesis) and HashMap<u32, Bookmark>; the i32 page counter is modelled but '
+                  'cannot be exercised (2^31 pages); the save/load corollaries rest on the C01 models (Model/Save.v, '
+                  'Model/Loader.v); extraction/OCaml driver; Rust harness whose verdict discovers the renaming by walking '
+                  'both documents in lock step and reads "a reference to nothing" as the null object. No axioms '
                   '(Print Assumptions: closed under the global context).',
     'technique': 'Coq proof (loop invariant of the worklist traversal, re-keying lemmas on sorted association lists, composition of '
-                 'two pass isomorphisms, simulation of the read-only queries under renaming) + differential correspondence',
+                 'two pass isomorphisms, simulation of the read-only queries under renaming with failures becoming null) + '
+                 'differential correspondence',
     'design_ref': 'DESIGN.md 6 C10',
 }
